@@ -374,7 +374,7 @@ def check_shadow_and_inst(cx, chk):
                                           "the grammar defines its own Whitespace rule but %s calls the builtin skipper" % rule, cx.site(b, i))
                         if not own_ws and f["krate"] != "peginator":
                             chk.violation("C08.shadow", "%s/%s foreign-skipper" % (inst.name, rule), "whitespace skipper resolves to %s" % f["path"], cx.site(b, i))
-                    elif l in atoms or (l.startswith("parse_") and f["path"].startswith(inst.prefix) and "_impl" not in f["path"]) or l == "parse_char":
+                    elif l in atoms or (l.startswith("parse_") and mir.strip_generics(f["path"]) == inst.prefix + "::" + l) or l == "parse_char":
                         atom_calls.append((b, i, t))
             def feeds_and_then(b, i, t):
                 dest = t["dest"]["l"]
@@ -386,6 +386,19 @@ def check_shadow_and_inst(cx, chk):
             atom_calls += [(b, i, t) for (b, i, t) in ws_calls if not feeds_and_then(b, i, t)]
             ws_calls = skips
             tag = "%s/%s" % (inst.name, rule)
+            # oracle: the grammar text says which rules skip
+            g = cx.grammar_of(inst)
+            gr = g.rule(rule) if g is not None else None
+            if gr is not None and gr.kind == "rule":
+                want_skip = "no_skip_ws" not in gr.flags
+                has_atoms = bool(atom_calls) or bool(ws_calls)
+                if has_atoms and want_skip != bool(ws_calls):
+                    b0, i0 = (atom_calls or ws_calls)[0][0], (atom_calls or ws_calls)[0][1]
+                    chk.violation("C08.inst", "%s mode-mismatch" % tag,
+                                  "rule %s is %s in the grammar but its generated code %s whitespace" % (
+                                      rule, "skipping" if want_skip else "@no_skip_ws", "skips" if ws_calls else "never skips"), cx.site(b0, i0))
+            elif g is None:
+                chk.violation("C08.inst", "%s grammar-unreadable" % inst.name, "cannot read the grammar of %s" % inst.name)
             if not ws_calls:
                 n_noskip += 1
                 chk.ok("C08.inst", tag + " noskip", None)
